@@ -357,5 +357,3 @@ func c17Child(args []string) {
 		fmt.Printf("FAIL %s\t%s\n", f.Sig, strings.ReplaceAll(f.Desc, "\n", " "))
 	}
 }
-
-func c17RunListenerTrace(c *Case) (string, []Fail) { return "badcase", nil }
